@@ -373,6 +373,7 @@ func joinStrings(xs []string) string {
 // errDisciplineExceptions: the call sites of the anchored packages whose error is, by design, not surfaced (frozen
 // after reading each one; key = function:callee#ordinal).
 var errDisciplineExceptions = map[string]string{
+	"pkg/storage/localfs.localFS.Put:afero.Fs.Remove#1":           "removal of the staging file of an overwrite that already failed: the write's own error is returned, the leftover is logged",
 	"pkg/cafs.defaultFs.Has:cafs.LeavesForHash#1":                 "Has answers false for an object whose leaves cannot be resolved (incomplete object)",
 	"pkg/cafs.GenerateFile:errgroup.Group.Wait#1":                 "test-data generator, not in any data path",
 	"pkg/cafs.GenerateFile:os.File.Seek#1":                        "test-data generator, not in any data path",
@@ -381,7 +382,7 @@ var errDisciplineExceptions = map[string]string{
 	"pkg/storage.MultiPut:storage.StoreCRC.PutCRC#1":              "a store flagged TolerateFailure may fail without failing the multi-write (by design)",
 	"pkg/storage.MultiPut:storage.Store.Put#1":                    "a store flagged TolerateFailure may fail without failing the multi-write (by design)",
 	"pkg/core.ListBundlesApply:core.doSelectBundles#1":            "assigned inside the collecting goroutine and read by the enclosing function after the channel closed (checked by the apply-errors sibling rule)",
-	"pkg/core.Diamond.implCommit:core.Diamond.uploadDescriptor#1": "after the bundle descriptor is written the commit is effective: a failed state write is logged (the diamond stays initialized; C12 ordering rules)",
+	"pkg/core.Diamond.implCommit:core.Diamond.uploadDescriptor#1": "assigned to the named result inside the deferred completion step: it is the commit's verdict (checked by C12 done-after-bundle:done-write-is-verdict)",
 	"pkg/core.writeMemProfile:os.File.Close#1":                    "best-effort Close on a path that already failed or of a read-only handle",
 	"pkg/core.ListDiamondsApply:core.doSelectDiamonds#1":          "assigned inside the collecting goroutine and read by the enclosing function after the channel closed (checked by the apply-errors sibling rule)",
 	"pkg/core.PurgeBuildReverseIndex:core.kvStore.Close#1":        "best-effort Close on a path that already failed or of a read-only handle",
